@@ -86,7 +86,7 @@ class Ctl(Controller):
 
 
 def spy_executor(captured):
-    from graphql.execution.incremental_executor import IncrementalExecutor
+    from graphql.execution.execute import IncrementalExecutor
 
     class Spy(IncrementalExecutor):
         def __init__(self, *a, **k):
